@@ -433,6 +433,25 @@ def run(ctx) -> None:
     check_converted_then_guessed(ctx, 'D8', only_attrs={'layerthickness', 'gradient'})
     from rules.helper_contract import run_shared
     run_shared(ctx, None, 'D9', 5)
+    ctx.rule('D11', 'every wellbore calculation Model.Calculate invokes starts from a freshly calculated reservoir series: the wellbore step tiles '
+                    'the reservoir temperature history in place at each redrilling, so a second wellbore pass without a reservoir pass before it '
+                    'would tile (and re-drop) an already tiled history')
+    mc = ctx.repo.method('Model', 'Calculate', 'geophires_x/Model.py')
+    calls11 = sorted(((c.lineno, c.col_offset, (dotted_name(c.func) or '')) for c in ast.walk(mc.node)
+                      if isinstance(c, ast.Call) and (dotted_name(c.func) or '') in ('self.reserv.Calculate', 'self.wellbores.Calculate')))
+    ctx.require(any(n_.endswith('wellbores.Calculate') for _, _, n_ in calls11), 'Model.Calculate: no self.wellbores.Calculate call found')
+    pending_res = False
+    k11 = 0
+    for ln, _, n_ in calls11:
+        if n_ == 'self.reserv.Calculate':
+            pending_res = True
+            continue
+        k11 += 1
+        ctx.check(pending_res, 'D11', f'Model.Calculate/wellbores-pass-{k11}-after-reservoir-pass', f'{mc.module.rel}:{ln}',
+                  f'wellbore pass {k11} of Model.Calculate is not preceded by a reservoir pass of its own: WellBores.Calculate replaces '
+                  f'model.reserv.Tresoutput by its redrilling-tiled copy, so this pass finds the trigger index in, and tiles, an already tiled '
+                  f'history - the profile no longer restarts from its beginning at each redrilling', fact='reserv.Calculate before it')
+        pending_res = False
     ctx.rule('D10', 'the gradient / thickness lists a run integrates are its own: no list-valued declaration argument of a reservoir class is an '
                     'object shared between instances (the readers write segment values into the list in place, so a shared default carries '
                     'the previous run\'s gradients into a run that leaves them out) (C08 P3)')
